@@ -548,6 +548,16 @@ class ProgGen:
         ns = [t.pick(NSN, "ns")]
         if nested:
             ns = ns + [t.pick(["inner", "detail"], "ns2")]      # enum and class two namespaces deep
+        if nested and self.f.get("twin_inner_ns", True) and t.bool(0.6, "twin-inner-namespace"):
+            # ANOTHER namespace with the same innermost name (a::detail next to b::detail), declared first, with a
+            # class of its own and without the enumeration: the two are told apart by their full path only
+            other = [n for n in NSN if n != ns[0]]
+            c0 = PClass(self.fresh(["Probe", "Gauge", "Meter"]), [t.pick(other, "twin-outer-ns"), ns[1]])
+            c0.declared_first = True
+            c0.ctors.append(PFunc("ctor", c0.name, None, []))
+            c0.methods.append(PFunc("method", "scale", PType("prim", "double"), [PArg(PType("prim", "int"), "n")],
+                                    const=True))
+            self.p.classes.insert(0, c0)
         gname = self.fresh(["Color", "Status", "Level"])
         ge = PEnum(gname, ns, [gname + x for x in ("Low", "Mid", "High")])
         self.p.enums.append(ge)
@@ -749,11 +759,14 @@ def emit_interface(p):
     """declarations grouped by namespace, in creation order of first appearance"""
     lines = ["#include <lib.h>", ""]
     units = []
+    for c in p.classes:
+        if getattr(c, "tpl", None) is None and getattr(c, "declared_first", False):
+            units.append((c.ns, "class", c))
     for e in p.enums:
         if e.owner is None:
             units.append((e.ns, "enum", e))
     for c in p.classes:
-        if getattr(c, "tpl", None) is None:
+        if getattr(c, "tpl", None) is None and not getattr(c, "declared_first", False):
             units.append((c.ns, "class", c))
     for tp in p.templates:
         units.append((tp.ns, "template", tp))
